@@ -38,6 +38,16 @@ func c05Gen(r *driver.Rand, thorough bool) *driver.Plan {
 	if r.Chance(1, 8) {
 		p.SetX("uses", 2) // the stage is used twice in a row in one run
 	}
+	// a stage that ends before its input does (Take after n elements,
+	// TakeWhile at the first rejected element) closes its output then, not when
+	// the input closes: the producer may keep its channel open for ever
+	if stage == "Take" || stage == "TakeWhile" {
+		m := modelOf(p)
+		early := len(m.Out) < len(p.Inputs[0]) || (stage == "Take" && p.N <= len(p.Inputs[0]))
+		if early && r.Chance(1, 2) {
+			p.Producers[0].NoClose = true
+		}
+	}
 	return p
 }
 
